@@ -9,7 +9,7 @@
    of ExtrOcamlBasic (list, option, pairs, bool) plus N/Z.  No record field, constructor or type name
    of Bep44.v appears in the driver, so the flat extraction may rename them freely when other models
    define the same names. *)
-From Dht Require Import Base Bep44 Sha1.
+From Dht Require Import Base Bep44 Bep44Fault Sha1.
 Local Open Scope Z_scope.
 
 (* ---- items ---- *)
@@ -82,6 +82,47 @@ Section Seq.
     | (st', OLocal (LQuery a)) =>
         (st', (0, Some (pa_bv a, pa_k a, pa_salt a, pa_sig a, pa_cas a, pa_seq a)))
     | (st', OLocal (LErr r)) => (st', (rb_put_code r, None))
+    | (st', _) => (st', (-2, None))
+    end.
+  (* ---- the same operations while chosen calls of the underlying Store fail (Bep44Fault.v).
+     fg / fp / fd: the s.Get / s.Put / s.Del call made by this operation returns an error ---- *)
+  Definition rb_sfput (st : sstate) (fg fp : bool) (i : item) : sstate * Z :=
+    match fseq_step sha1 edv Repaired exp st (FPut (mkFaults fg fp false) i) with
+    | (st', FOPut r) => (st', rb_put_code r)
+    | (st', _) => (st', -2)
+    end.
+
+  (* Wrapper.Get: (0, item) found | (1, _) not found | (2, _) the store's error *)
+  Definition rb_sfget (st : sstate) (fg fd : bool) (t : bytes) : sstate * (Z * option item) :=
+    match fseq_step sha1 edv Repaired exp st (FGet (mkFaults fg false fd) t) with
+    | (st', FOGet (FGItem i)) => (st', (0, Some i))
+    | (st', FOGet FGNotFound) => (st', (1, None))
+    | (st', FOGet FGOther) => (st', (2, None))
+    | (st', _) => (st', (-2, None))
+    end.
+
+  Definition rb_sfwput (st : sstate) (fg fp : bool) (bv k salt sg : bytes) (cas : Z) (seq : option Z) : sstate * Z :=
+    match fseq_step sha1 edv Repaired exp st (FWirePut (mkFaults fg fp false) (mkPutArgs bv k salt sg cas seq)) with
+    | (st', FOWirePut SReply) => (st', 0)
+    | (st', FOWirePut (SError c)) => (st', c)
+    | (st', _) => (st', -2)
+    end.
+
+  (* inbound get: error code (0 = a reply) and the seq / (v, k, sig) fields of the reply *)
+  Definition rb_sfwget (st : sstate) (fg fd : bool) (t : bytes) (sq : option Z)
+    : sstate * (Z * (option Z * option (bytes * bytes * bytes))) :=
+    match fseq_step sha1 edv Repaired exp st (FWireGet (mkFaults fg false fd) t sq) with
+    | (st', FOWireGet (FGReply g)) => (st', (0, (gr_seq g, gr_val g)))
+    | (st', FOWireGet (FGError c)) => (st', (c, (None, None)))
+    | (st', _) => (st', (-2, (None, None)))
+    end.
+
+  Definition rb_sflput (st : sstate) (fg fp : bool) (bv : bytes) (k : option bytes) (salt sg : bytes) (cas seq : Z)
+    : sstate * (Z * option (bytes * bytes * bytes * bytes * Z * option Z)) :=
+    match fseq_step sha1 edv Repaired exp st (FLocalPut (mkFaults fg fp false) (mkPutIn bv k salt sg cas seq)) with
+    | (st', FOLocal (LQuery a)) =>
+        (st', (0, Some (pa_bv a, pa_k a, pa_salt a, pa_sig a, pa_cas a, pa_seq a)))
+    | (st', FOLocal (LErr r)) => (st', (rb_put_code r, None))
     | (st', _) => (st', (-2, None))
     end.
 End Seq.
